@@ -64,14 +64,14 @@ const (
 type c18StubPriv struct{ pub, raw []byte }
 type c18StubPub struct{ pub []byte }
 
-func (k *c18StubPriv) Equals(o ic.Key) bool          { b, _ := o.Raw(); return bytes.Equal(b, k.raw) }
-func (k *c18StubPriv) Raw() ([]byte, error)          { return append([]byte{}, k.raw...), nil }
-func (k *c18StubPriv) Type() pb.KeyType              { return pb.KeyType_Ed25519 }
-func (k *c18StubPriv) Sign([]byte) ([]byte, error)   { return nil, fmt.Errorf("stub key cannot sign") }
-func (k *c18StubPriv) GetPublic() ic.PubKey          { return &c18StubPub{k.pub} }
-func (k *c18StubPub) Equals(o ic.Key) bool           { b, _ := o.Raw(); return bytes.Equal(b, k.pub) }
-func (k *c18StubPub) Raw() ([]byte, error)           { return append([]byte{}, k.pub...), nil }
-func (k *c18StubPub) Type() pb.KeyType               { return pb.KeyType_Ed25519 }
+func (k *c18StubPriv) Equals(o ic.Key) bool               { b, _ := o.Raw(); return bytes.Equal(b, k.raw) }
+func (k *c18StubPriv) Raw() ([]byte, error)               { return append([]byte{}, k.raw...), nil }
+func (k *c18StubPriv) Type() pb.KeyType                   { return pb.KeyType_Ed25519 }
+func (k *c18StubPriv) Sign([]byte) ([]byte, error)        { return nil, fmt.Errorf("stub key cannot sign") }
+func (k *c18StubPriv) GetPublic() ic.PubKey               { return &c18StubPub{k.pub} }
+func (k *c18StubPub) Equals(o ic.Key) bool                { b, _ := o.Raw(); return bytes.Equal(b, k.pub) }
+func (k *c18StubPub) Raw() ([]byte, error)                { return append([]byte{}, k.pub...), nil }
+func (k *c18StubPub) Type() pb.KeyType                    { return pb.KeyType_Ed25519 }
 func (k *c18StubPub) Verify([]byte, []byte) (bool, error) { return false, nil }
 
 type c18Key struct {
@@ -895,7 +895,7 @@ func c18Manager(t *testing.T) {
 	var keys []c18Key
 	stubs := []uint16{0, 20039, 20159, 1}
 	if thorough {
-		stubs = []uint16{0, 1, 20039, 20040, 20041, 20159, 65535}
+		stubs = []uint16{0, 1, 20039, 20040, 20041, 20159}
 	}
 	for _, u := range stubs {
 		keys = append(keys, c18StubKey(u))
@@ -926,7 +926,7 @@ func c18Manager(t *testing.T) {
 		offs = append(offs, k.name)
 	}
 	r.Bounds["host keys"] = offs
-	r.Bounds["clock kinds"] = "benbjohnson mock clock driven by the harness; clock.New() on the bubble's virtual time"
+	r.Bounds["clock kinds"] = "benbjohnson mock clock driven by the harness (every key); clock.New() on the bubble's virtual time (thorough: every key, quick: every other key)"
 	r.Bounds["start instants per key"] = fmt.Sprintf("%d: every %dh over one bucket period + {0,+-1ms,+-1h,+-(1h-1ms),+-(1h+1ms)} around bucketStart, bucketStart+skew, bucketEnd(=End-2skew), End-skew", len(starts), hourStep)
 	r.Bounds["rollovers"] = fmt.Sprintf("0..%d per history", maxRolls)
 	r.Bounds["restarts"] = fmt.Sprintf("0..%d per history, at every boundary sample and every %dth hourly sample of a period", maxRestarts, restartStep)
@@ -950,8 +950,11 @@ func c18Manager(t *testing.T) {
 		defs = append(defs, sysdef{keys[0], false, time.Date(2037, 12, 25, 0, 0, 0, 0, time.UTC), "mock@2038"},
 			sysdef{keys[len(keys)-1], false, time.Date(2049, 12, 1, 0, 0, 0, 0, time.UTC), "mock@2050"})
 	}
-	for _, k := range keys {
-		defs = append(defs, sysdef{k, false, d2024, "mock@2024"}, sysdef{k, true, d2000, "real@2000"})
+	for i, k := range keys {
+		defs = append(defs, sysdef{k, false, d2024, "mock@2024"})
+		if thorough || i%2 == 0 { // quick tier: the real-clock variant for every other key
+			defs = append(defs, sysdef{k, true, d2000, "real@2000"})
+		}
 	}
 	for _, d := range defs {
 		if time.Now().After(vrep.Deadline()) {
